@@ -213,6 +213,14 @@ def chain_states():
         ("mc.props.c02", (B, "hg19", ("1", "13"), ("1", "13"), (), 0.1)),
         ("mc.props.c13", ("table", A, fus, (), 0.0)),
         ("mc.props.c13", ("table", ("toy",), (("1", "1.001"), ("2", "2.001")), (), 0.0)),
+        # the same reads through the file path on either build of one database (C06), two threshold settings on one
+        # table (C15), an integer and a binary model with the same variable names (C05), both builds' catalogues (C08)
+        ("mc.props.c06", ("file", True, "hg19", False, (2, 15))),
+        ("mc.props.c06", ("file", "pseudo", "hg38", False, (2, 1))),
+        ("mc.props.c15", (A, (("2", "2.001"), ("3", "3.001")), (), (10, 10, 2, 0.5), ((None, None, 5, (60, 15)),))),
+        ("mc.props.c15", (A, (("2", "2.001"), ("3", "3.001")), (), (20, 10, 2, 0.5), ((None, None, 5, (60, 15)),))),
+        ("mc.props.c05", ("intmix", 2, 0, (1, 1), 2)),
+        ("mc.props.c05", ("model", 2, (((1, 1), 1),), None, False, "tenth", 0.5, None, None)),
     ]
     out = []
     for mod, st in L:
@@ -221,6 +229,10 @@ def chain_states():
             g = worlds.gene_of(st[0], "hg19")
             m = sorted(x for x in g.mutations if g.mutations[x][0] is None and g.region_at(x[0])[1] == "i1")[0]
             st = (st[0], st[1], st[2], (("set", m[0], m[1], 10),), st[4])
+        if mod.endswith("c15"):
+            g = worlds.gene_of(st[0], "hg19")
+            m = sorted(x for x in g.mutations if g.mutations[x][0] is not None and x[1][1:2] == ">")[-1]
+            st = (st[0], st[1], st[2], st[3], ((m[0], m[1], 50, (60, 15)),))
         out.append((mod, st))
     return out
 
@@ -486,7 +498,8 @@ class C14(Check):
         for j in range(n):
             yield ("chain", None, j)
             for i in range(n):
-                if i != j and (self.tier == "thorough" or (i + j + self.seed) % 2 == 0):
+                # quick: neighbours in the list (the designed conflicts) in both orders, plus a parity slice of the rest
+                if i != j and (self.tier == "thorough" or abs(i - j) == 1 or (i + j + self.seed) % 2 == 0):
                     yield ("chain", i, j)
         # systematic candidate sets: toy tables (planted pair + one deviation); the candidates are what the major
         # stage itself proposes for a menu of structures
